@@ -66,12 +66,15 @@ CLAIMED = {
         design="§3 C03"),
     "C04": dict(
         text="Lean 4 theorems: x·M, M·x and the triangular solve are linear in the data for every size; dr scaling of the "
-             "matrix forms; NNLS solutions are positively homogeneous (over the reals). Tie: for every method x direction x "
+             "matrix forms; NNLS solutions are positively homogeneous (over the reals); the Hansen–Law recursion, the direct quadrature "
+             "(python backend) and the Bordas peeling loop as coded are linear in the row and scale with dr, for every constant table; the "
+             "Bordas loop is the exact solve of its arcsine shell-weight system. Tie: Lean models of those three run against the code row "
+             "by row (Hansen–Law constants regenerated from the source);  for every method x direction x "
              "option set the implementation is compared with its own extracted fixed operator (T(X) = X@M), and the Lean "
              "matrices with the implementation's arrays; linearity, bit-exact row independence, dr scaling, integer dtypes, "
              "NNLS homogeneity, image tools and abel.Transform settings as oracle.",
-        note="Trusted: Lean kernel + standard axioms; Hansen-Law / direct / Bordas recursions and scipy resampling tools are "
-             "not modelled in Lean (fixed-operator form and linearity measured); scipy nnls external.",
+        note="Trusted: Lean kernel + standard axioms; scipy resampling (ndimage.shift in onion_bordas shift_grid=True, image tools) is "
+             "not modelled in Lean (fixed-operator form and linearity measured); direct's C backend not built; scipy nnls external.",
         technique="Lean 4 proof (finite-sum algebra, induction) + fixed-operator differential check",
         design="§3 C04"),
     "C17": dict(
@@ -179,14 +182,16 @@ CLAIMED = {
         text="Lean 4 theorems over the reals (Mathlib measure theory): the Abel (line-of-sight) integral of the indicator of a radial "
              "shell [a, b) is twice the difference of the half-chords, for every shell and every distance; hence every entry of the "
              "Daun degree-0 projected basis and of the onion-peeling weight matrix W (all i, j) equals the Abel integral of its "
-             "rectangular basis function, whose documented formula is also proved. Tie: Lean matrices (onionW, twoPointD, "
+             "rectangular basis function, whose documented formula is also proved; the Abel integral of the ramp (R−r)₊ in closed form "
+             "(fundamental theorem of calculus), hence every entry of the Daun degree-1 basis (all i, j) equals the Abel integral of its "
+             "hat function. Tie: Lean matrices (onionW, twoPointD, "
              "threePointD, daun0-2) vs the implementation's arrays entrywise. Oracle: scipy quadrature of the defining integrals "
              "for daun 0-3 (degree 3 via the clamped cubic Hermite spline), basex χ_k/ρ_k for several σ, rbasex p_{R;n}, and the "
              "inverse-Abel integrals of the two-/three-point local interpolants; onion D·W = 1.",
-        note="Partial: theorem-backed families are daun degree 0 and onion-peeling W; the other families are quadrature-backed "
+        note="Partial: theorem-backed families are daun degrees 0-1 and onion-peeling W; the other families are quadrature-backed "
              "(1e-9) at special and random indices. Trusted: Lean kernel + standard axioms; scipy.integrate.quad; the reading of "
              "each basis function from the documentation; rbasex P[n][0,0]=1 (n>0) is a documented convention, not an integral.",
-        technique="Lean 4 proof (Lebesgue integral of indicator, real square-root inequalities) + entrywise differential check + quadrature oracle",
+        technique="Lean 4 proof (Lebesgue integral of indicators, FTC for the ramp, real square-root/log algebra) + entrywise differential check + quadrature oracle",
         design="§3 C09"),
     "C10": dict(
         text="Lean 4 theorems (any field): the shift/stretch coefficient transform of Polynomial/SPolynomial yields the coefficients "
@@ -212,7 +217,8 @@ CLAIMED = {
     "C01": dict(
         text="Lean 4 theorems: for every exact inverse pair (T, A) the reconstruction error is at most the row-sum norm of T times "
              "the consistency error of the data (stability reduction), and daun degree 0 / onion peeling invert the true Abel "
-             "projection of every piecewise-constant source exactly at every size (through C09's operator = Abel integral theorems). "
+             "projection of every piecewise-constant source exactly at every size (through C09's operator = Abel integral theorems); an "
+             "a-priori envelope ‖T_i‖₁·L·(n−½) for inverting the true projection of any L-Lipschitz source with the degree-0 basis. "
              "Tie: Lean operator models vs the implementation's arrays. Oracle independent of PyAbel: closed-form Abel pairs and "
              "Gauss–Legendre line-of-sight projections for every method x documented option x family x size x dr x rows; errors must "
              "stay within 2x the frozen pinned-tree envelope, below half the peak, and not grow under refinement.",
@@ -224,7 +230,9 @@ CLAIMED = {
     "C02": dict(
         text="Lean 4 theorems over the reals: the a-priori bound |Abel f x| ≤ 2M√(R²−x²), the exact dr scaling of the projection of a "
              "stretched source (the intensity scale set by the pixel size), and the chord bound for every entry of the degree-0 "
-             "forward operator; with C09 the daun / onion-peeling forward operators are the Abel integrals of their basis functions. "
+             "forward operator; with C09 the daun / onion-peeling forward operators are the Abel integrals of their basis functions, which "
+             "gives machine-checked a-priori envelopes: degree 0 errs by ≤ L·√((n−½)²−i²) on L-Lipschitz sources (every size, pixel), degree 1 "
+             "by ≤ 2ε·√(n²−i²) with ε the linear-interpolation error. "
              "Tie: Lean operator models vs implementation arrays. Oracle: as C01 for direction='forward' (basex, daun, direct incl. "
              "explicit r grids, hansenlaw, rbasex incl. explicit origin) at dr 1 and 0.5.",
         note="Partial: numerical envelopes measured (2x frozen pinned-tree error), not proved; hansenlaw/direct/basex/rbasex forward "
